@@ -126,6 +126,23 @@ pub open spec fn conn_ok(k: ConnState, s: VolatileState) -> bool {
     &&& s.users@[k.user_state.nick->0].sender.id() == k.receiver.id()
 }
 pub open spec fn my_nick(k: ConnState) -> String { k.user_state.nick->0 }
+// ---- more than one critical section in one handler (rule R1s) ----
+// ASSUMED rely condition: what the OTHER connections may have done to the registry while this connection did not hold the lock.
+// They keep the registry well formed (each of their critical sections is one of the handlers proved here), they never remove, re-key or
+// re-queue this connection's user (only a connection's own NICK / teardown does that), and they never register a user under this
+// connection's queue (a user is created with the queue of the connection that registers it).
+pub open spec fn others_ran(o: VolatileState, n: VolatileState, rid: int) -> bool {
+    &&& (state_wf(o) ==> state_wf(n))
+    &&& (forall|k: String| o.users@.contains_key(k) && (#[trigger] o.users@[k]).sender.id() == rid ==> n.users@.contains_key(k) && n.users@[k].sender.id() == rid)
+    &&& ((forall|k: String| o.users@.contains_key(k) ==> (#[trigger] o.users@[k]).sender.id() != rid) ==> (forall|k: String| n.users@.contains_key(k) ==> (#[trigger] n.users@[k]).sender.id() != rid))
+}
+// a lock acquisition: the first one reached on a path sees the registry as the contract's precondition describes it; a later one sees
+// what the other connections made of it in between
+#[verifier::external_body]
+pub fn verif_section(state: &mut VolatileState, me: &UnboundedReceiver<String>, Ghost(again): Ghost<bool>)
+    ensures !again ==> *final(state) == *old(state), again ==> others_ran(*old(state), *final(state), me.id()),
+{ unimplemented!() }
+
 
 // every member of channel c (in state s) got exactly one copy of `line`, nobody else got anything
 pub open spec fn delivered_to_members(old_log: Seq<(int, Seq<char>)>, new_log: Seq<(int, Seq<char>)>, s: VolatileState, members: Set<String>, line: Seq<char>) -> bool {
